@@ -889,6 +889,78 @@ def tiny_sig_matrix(rng, keys):
                         yield spend(tx, b"\xa9\x14" + hash160(script) + b"\x87", 9000, fix_flags(flags | RS.P2SH), "sig.tiny_sig.p2sh")
 
 
+def two_sigops_cases(rng, keys, n):
+    """legacy scripts running two signature operations, where one of the checked signatures is itself pushed inside the
+    script: each operation's digest is over the script code minus ITS OWN signatures (FindAndDelete), so the two digests
+    differ even for equal hash types"""
+    for _ in range(n):
+        a, b = rng.sample(range(len(keys.d)), 2)
+        pka, pkb = keys.sec(a, rng.random() < 0.8), keys.sec(b, rng.random() < 0.8)
+        hta = rng.choice([1, 1, 2, 3, 0x81])
+        htb = hta if rng.random() < 0.7 else rng.choice([1, 2, 3, 0x83])
+        sep = rng.choice([b"", b"", b"", b"\xab"])
+        order = rng.random() < 0.5
+        tx = mk_tx(rng, b"", [], 4000, rng.choice([1, 2]), 0, 0xffffffff, rng.choice([0, 1]), rng.choice([1, 2]), 0)
+        # the embedded signature (A) commits to the script with its own push removed
+        if order:       # <pkB> CHECKSIGVERIFY [sep] <sigA> <pkA> CHECKSIG      spent with <sigB>
+            head, tail_wo = push(pkb) + b"\xad" + sep, push(pka) + b"\xac"
+            code_a_wo = (tail_wo if sep else head + tail_wo)
+            siga = sig_blob(keys, a, SH.legacy(tx, 0, code_a_wo, hta), hta)
+            script = head + SH.push_data(siga) + tail_wo
+            sigb = sig_blob(keys, b, SH.legacy(tx, 0, script, htb), htb)
+        else:           # <sigA> <pkA> CHECKSIGVERIFY [sep] <pkB> CHECKSIG      spent with <sigB>
+            tail = sep + push(pkb) + b"\xac"
+            code_a_wo = push(pka) + b"\xad" + tail
+            siga = sig_blob(keys, a, SH.legacy(tx, 0, code_a_wo, hta), hta)
+            script = SH.push_data(siga) + push(pka) + b"\xad" + tail
+            code_b = (push(pkb) + b"\xac") if sep else script
+            sigb = sig_blob(keys, b, SH.legacy(tx, 0, code_b, htb), htb)
+        mode = rng.random()
+        if mode < 0.15:
+            sigb = sig_blob(keys, b, sha256(b"wrong"), htb)
+        flags = rng.choice([0, RS.P2SH, RS.P2SH | RS.STRICTENC | RS.DERSIG, ALL_FLAGS & ~RS.CLEANSTACK & ~RS.SIGPUSHONLY, RS.NULLFAIL | RS.P2SH])
+        if rng.random() < 0.5:
+            tx["ins"][0]["script"] = push(sigb)
+            yield spend(tx, script, 4000, flags, "sig.two_sigops.bare")
+        else:
+            tx["ins"][0]["script"] = push(sigb) + SH.push_data(script)
+            yield spend(tx, b"\xa9\x14" + hash160(script) + b"\x87", 4000, fix_flags(flags | RS.P2SH), "sig.two_sigops.p2sh")
+
+
+def multi_input_cases(rng, keys, n):
+    """transactions with several signed inputs (P2WPKH / P2PKH), per-input hash types incl. SINGLE over distinct outputs, some
+    signatures deliberately computed for ANOTHER input's position; to be validated input by input, also through one shared
+    checker object in both orders"""
+    for _ in range(n):
+        k = rng.choice([2, 2, 3, 4])
+        n_out = rng.choice([k, k, k - 1, k + 1])
+        tx = {"version": rng.choice([1, 2]), "lock_time": 0,
+              "ins": [{"prev": rand_prev(rng), "index": rng.randrange(3), "script": b"", "sequence": rng.choice([0xffffffff, 0xfffffffe, 7]), "witness": []} for _ in range(k)],
+              "outs": [{"value": 1000 + 37 * j + rng.randrange(5), "script": bytes([0x51 + j])} for j in range(n_out)]}
+        spks, amounts = [], []
+        plan = []
+        for i in range(k):
+            ki = rng.randrange(len(keys.d))
+            pub = keys.sec(ki, True)
+            kind = rng.choice(["p2wpkh", "p2wpkh", "p2pkh"])
+            amount = 5000 + 11 * i
+            spk = (b"\x00\x14" + hash160(pub)) if kind == "p2wpkh" else (b"\x76\xa9\x14" + hash160(pub) + b"\x88\xac")
+            spks.append(spk)
+            amounts.append(amount)
+            plan.append((ki, pub, kind, rng.choice([1, 3, 3, 0x83, 2, 0x81])))
+        for i, (ki, pub, kind, ht) in enumerate(plan):
+            sign_as = i if rng.random() < 0.75 else rng.randrange(k)
+            code = b"\x76\xa9\x14" + hash160(pub) + b"\x88\xac"
+            if kind == "p2wpkh":
+                digest = SH.bip143(tx, sign_as, code, amounts[i] if sign_as == i else amounts[sign_as], ht)
+                tx["ins"][i]["witness"] = [sig_blob(keys, ki, digest, ht), pub]
+            else:
+                digest = SH.legacy(tx, sign_as, code, ht)
+                tx["ins"][i]["script"] = push(sig_blob(keys, ki, digest, ht)) + push(pub)
+        flags = rng.choice([RS.P2SH | RS.WITNESS, ALL_FLAGS, RS.P2SH | RS.WITNESS | RS.NULLFAIL])
+        yield {"k": "multi", "tx": tx, "spks": spks, "amounts": amounts, "flags": flags, "src": "multi.shared_checker"}
+
+
 def locktime_cases(rng, n):
     """CLTV / CSV: operand x tx lock_time / sequence / version on both sides of every comparison"""
     T = 500000000
